@@ -1194,8 +1194,17 @@ func metadataHeaders(headers map[string][]string, at time.Time, sizeLimit int) (
 	}
 	meta["Last-Modified"] = formatHeaderTime(at)
 
-	if sizeLimit > 0 && metadataSize(meta) > sizeLimit {
-		return meta, ErrMetadataTooLarge
+	if sizeLimit > 0 {
+		size := metadataSize(meta)
+		if src, ok := meta["X-Amz-Copy-Source"]; ok {
+			// The copy source says which object to copy, it is not metadata of
+			// the new object: a key within the key limit is three times as
+			// long once it is percent-encoded and must still be copyable.
+			size -= len("X-Amz-Copy-Source") + len(src)
+		}
+		if size > sizeLimit {
+			return meta, ErrMetadataTooLarge
+		}
 	}
 
 	return meta, nil
